@@ -198,7 +198,7 @@ static const struct bind_s binds[] = {
 	{C_YWD, "+1b", NULL}, {C_YWD, "-1b", NULL},
 	{C_EPOCH, "+1b", "%F %a"},
 	/* thorough only from here */
-	{C_EPOCH, "-5b", NULL}, {C_YMCW0, "-1b", "%F"}, {C_YWD0, "+1b", "%F"},
+	{C_EPOCH, "+5b", NULL}, {C_YMCW0, "-1b", "%F"}, {C_YWD0, "+1b", "%F"},
 	{C_YMD, "+5b", NULL}, {C_YMD, "-5b", NULL}, {C_YMD, "+4b", "%F %a"}, {C_YMD, "-6b", "%F %a"},
 	{C_YD, "-1b", NULL}, {C_YD, "+5b", NULL}, {C_YD, "+23b", NULL}, {C_YD, "-260b", NULL},
 	{C_YMCW, "-1b", NULL}, {C_YMCW, "+5b", NULL}, {C_YMCW, "+23b", NULL}, {C_YMCW, "-260b", NULL},
